@@ -34,6 +34,7 @@ macro("DemeOk", ["t", "l", "i", "d"], """
     and d._problem != None and 0 <= d._started_at and d._started_at <= t.metaepoch_count
     and id_depth(d._id) == l and type_id(d) == deme_class_of(type_id(t.config.levels[l]))
     and HistShape(d) and wowner(d._problem) == d and d._lsc != None
+    and d._problem._inner == t.config.levels[l].problem and inner(d._problem) == inner(t.config.levels[l].problem)
     and imp(d._active, not field(d, "$engine_stop", "bool"))
     and imp(d._active, len(cur_pop(d)) >= 1 and kind(cur_pop(d)) != 10)
 """)
@@ -106,7 +107,7 @@ macro("DemeFresh", ["r", "cfg", "id_", "level", "started", "seed"], """
     and r._history != None and fresh(r._history) and kind(r._history) == 3 and owner(r._history) == r and len(r._history) == 1
     and HistShape(r) and is_none(r._centroid) and len(cur_pop(r)) >= 1 and kind(cur_pop(r)) != 10
     and r._problem != None and fresh(r._problem) and r._problem._inner == cfg.problem and r._problem._n_evals >= 0
-    and wowner(r._problem) == r
+    and wowner(r._problem) == r and inner(r._problem) == inner(cfg.problem)
 """)
 
 fn("ext.$DemeCtor.__call__", abstract=True, params={"deme_init_args": "ref:DemeInitArgs"}, returns="ref:AbstractDeme",
@@ -143,7 +144,8 @@ fn(T + "_next_child_id", params={"deme": "ref:AbstractDeme"}, returns="str", pur
 # ---- sprouting ----------------------------------------------------------------------------------
 macro("LevelProblemsWf", ["t"], """
     forall(lambda l: imp(0 <= l < len(t.config.levels), WfProblem(t.config.levels[l].problem)
-                          and forall(lambda o: imp(in_chain(t.config.levels[l].problem, o), wowner(o) == None), o="ref:Problem")))
+                          and forall(lambda o: imp(in_chain(t.config.levels[l].problem, o), wowner(o) == None), o="ref:Problem",
+                                     pat=in_chain(t.config.levels[l].problem, o))))
 """)
 # the problem objects an evaluation through a *new* deme may touch: user-supplied stacks, never another deme's own wrapper
 USER_PROBLEM_FRAME = [(f, "instance_of(o, 'Problem') and wowner(o) == None")
